@@ -230,11 +230,11 @@ defvjp(
 )
 defvjp(
     anp.cross,
-    lambda ans, a, b, axisa=-1, axisb=-1, axisc=-1, axis=None: lambda g: anp.cross(
-        b, g, axisb, axisc, axisa, axis
+    lambda ans, a, b, axisa=-1, axisb=-1, axisc=-1, axis=None: unbroadcast_f(
+        a, lambda g: anp.cross(b, g, axisb, axisc, axisa, axis)
     ),
-    lambda ans, a, b, axisa=-1, axisb=-1, axisc=-1, axis=None: lambda g: anp.cross(
-        g, a, axisc, axisa, axisb, axis
+    lambda ans, a, b, axisa=-1, axisb=-1, axisc=-1, axis=None: unbroadcast_f(
+        b, lambda g: anp.cross(g, a, axisc, axisa, axisb, axis)
     ),
 )
 defvjp(
